@@ -203,7 +203,7 @@ func TestC18CloudEvents(t *testing.T) {
 		}
 		switch pred {
 		case "nil", "true":
-			if err != nil || out != ev {
+			if err != nil || out == nil {
 				t.Fatalf("VIOLATION C18: event not forwarded (err=%v)\ncase: %s", err, desc)
 			}
 		case "false":
@@ -218,15 +218,24 @@ func TestC18CloudEvents(t *testing.T) {
 		if pred != "nil" && !predCalled {
 			t.Fatalf("VIOLATION C18: predicate not consulted\ncase: %s", desc)
 		}
-		doc, ok := ev.Format(key)
+		// read from the forwarded event; an event that is not forwarded need not have been formatted at all
+		carrier := ev
+		if out != nil {
+			carrier = out
+		}
+		doc, ok := carrier.Format(key)
 		if !ok {
-			t.Fatalf("VIOLATION C18: nothing stored under %q\ncase: %s", key, desc)
+			if out != nil {
+				t.Fatalf("VIOLATION C18: nothing stored under %q\ncase: %s", key, desc)
+			}
+			sec.Case(false, desc, "not_forwarded_and_not_formatted")
+			return
 		}
 		other := string(cloudevents.FormatText)
 		if key == other {
 			other = string(cloudevents.FormatJSON)
 		}
-		if _, ok := ev.Format(other); ok {
+		if _, ok := carrier.Format(other); ok {
 			t.Fatalf("VIOLATION C18: document also stored under %q\ncase: %s", other, desc)
 		}
 		var m map[string]json.RawMessage
@@ -396,9 +405,10 @@ func TestC18Reuse(t *testing.T) {
 			hist = append(hist, cfg)
 			ev := &eventlogger.Event{Type: "T", CreatedAt: time.Now(), Formatted: map[string][]byte{}, Payload: map[string]interface{}{"i": i}}
 			out, err := f.Process(context.Background(), ev)
-			if err != nil || out != ev {
+			if err != nil || out == nil {
 				t.Fatalf("VIOLATION C18: event %d on a reused formatter failed: %v\nhistory: %v", i, err, hist)
 			}
+			ev = out
 			key := string(cloudevents.FormatJSON)
 			if fm == cloudevents.FormatText {
 				key = string(cloudevents.FormatText)
